@@ -103,4 +103,4 @@ def main():
 
 
 if __name__ == '__main__':
-    main()
+    guarded(main)
